@@ -166,6 +166,10 @@ class SpecMixin:
             # attr(obj, 'name', 'sortspec'): raw heap read with explicit sort
             v = self.ev(node.args[0], st, fr)
             return self.read_attr(st, v, node.args[1].value, node.args[2].value if len(node.args) > 2 else None)
+        if nm == 'older':
+            # older(x): x was allocated before the current program point (entry objects included)
+            from .eng_core import ALLOC_T
+            return ALLOC_T(to_ref(self.ev(node.args[0], st, fr))) < st.ghost.get('$now', z3.IntVal(0))
         if nm == 'alloc0':
             return alloc0(to_ref(self.ev(node.args[0], st, fr)))
         if nm in ('objsub', 'objadd', 'objmul'):
